@@ -19,8 +19,53 @@ fn usage() -> ! {
     std::process::exit(2);
 }
 
+thread_local! {
+    /// the case line (run mode) or generator input (gen mode) the current thread is working on
+    pub static CURRENT: std::cell::RefCell<String> = std::cell::RefCell::new(String::new());
+}
+
+thread_local! {
+    /// finer breadcrumb: the step of a chain script being executed
+    pub static SUB: std::cell::RefCell<String> = std::cell::RefCell::new(String::new());
+}
+
+pub fn set_sub(s: &str) {
+    SUB.with(|c| {
+        let mut c = c.borrow_mut();
+        c.clear();
+        c.push_str(s);
+    });
+}
+
+pub fn set_current(s: &str) {
+    set_sub("");
+    CURRENT.with(|c| {
+        let mut c = c.borrow_mut();
+        c.clear();
+        c.push_str(s);
+    });
+}
+
+/// Ordinary panics are caught per case and reported as `panic`. A panic that cannot unwind (a violated `unsafe`
+/// precondition check, a panic in a `nounwind` context) aborts the whole process; so that the aborting input can
+/// be named, every panic overwrites the file `$OWL_PANIC_FILE` (if set) with the current case and the message.
 pub fn install_silent_hook() {
-    std::panic::set_hook(Box::new(|_| {}));
+    let path = std::env::var("OWL_PANIC_FILE").ok();
+    std::panic::set_hook(Box::new(move |info| {
+        if let Some(p) = &path {
+            let cur = CURRENT.with(|c| c.borrow().clone());
+            let sub = SUB.with(|c| c.borrow().clone());
+            let cur = if sub.is_empty() { cur } else { format!("{} ## step: {}", cur, sub) };
+            let msg = format!("{}", info);
+            // a backtrace only for the kinds of panic that abort the process (they are rare)
+            let bt = if msg.contains("unsafe precondition") || msg.contains("cannot unwind") {
+                format!("{}", std::backtrace::Backtrace::force_capture())
+            } else {
+                String::new()
+            };
+            let _ = std::fs::write(p, format!("{}\n{}\n{}\n", cur, msg, bt));
+        }
+    }));
 }
 
 pub fn run_cases(lines: &[String]) -> Vec<String> {
@@ -49,6 +94,7 @@ pub fn run_cases(lines: &[String]) -> Vec<String> {
                 let hi = ((i + 1) * chunk).min(n);
                 let mut out = Vec::with_capacity(hi - lo);
                 for l in &lines[lo..hi] {
+                    set_current(l);
                     out.push(ops::run_line(l));
                 }
                 *slots[i].lock().unwrap() = out;
